@@ -7,7 +7,8 @@ import common as C
 import tmodel
 
 META = dict(
-    rule='random planets/stars, 2..12 layers, pressure ranges, isothermal and arbitrary temperature profiles, '
+    rule='(cross-section mode and, with degenerate k-tables up to complete black-out, correlated-k mode) '
+         'random planets/stars, 2..12 layers, pressure ranges, isothermal and arbitrary temperature profiles, '
          '1..3 absorbers with in-memory tables from fully transparent to saturated, random subsets of '
          '{Absorption, CIA, Rayleigh, SimpleClouds, FlatMie}, both path-length methods; non-trivial = some layer '
          'has a transmittance strictly between 1e-6 and 1-1e-6; distinct by the generated spec',
@@ -207,12 +208,57 @@ def run(ctx):
         ctx.count('layers:%d' % spec['nlayers'])
         for c in o['cs']:
             ctx.count('contrib:' + c[2])
+    # ---- correlated-k opacity mode: the same integral with the molecular optical depth taken from k-tables. The tables
+    # are degenerate (equal coefficients at every quadrature point, random weights), so the depth must be the one of
+    # the coefficients read as cross-sections — including atmospheres so opaque that exp(-tau) underflows to zero
+    import os
+    import shutil
+    kdir = os.path.join(C.CACHE, 'ktables_c01_%d' % os.getpid())
+    try:
+        for i in range(ctx.n(14, 100)):
+            spec = tmodel.gen_spec(rng, contribs=['Absorption'] + [c for c in ['CIA', 'Rayleigh', 'SimpleClouds'] if rng.random() < 0.25])
+            if rng.random() < 0.3:
+                spec['opac'] = {g: dict(o_, tab=np.array(o_['tab']) * 1e6 + 1e-18) for g, o_ in spec['opac'].items()}
+                spec['level'] = 'blackout'
+            spec['opacity_mode'] = 'ktables'
+            nq = rng.choice([1, 2, 4])
+            w = np.array([rng.uniform(0.05, 1) for _ in range(nq)])
+            w = w / w.sum()
+            w[-1] = 1.0 - w[:-1].sum()
+            spec['kweights'] = w
+            try:
+                tmodel.write_ktables(spec, kdir, w)
+                model = tmodel.build(spec, kdir=kdir)
+                o = observe(model)
+            except Exception as e:
+                ctx.violation('impl-raises:ktables:' + C.err_kind(e), 'TransmissionModel (k-tables) raised %r' % (e,),
+                              replay=dict(spec=spec))
+                continue
+            ok3 = True
+            for j, (kind, sg, nm) in enumerate(o['cs']):
+                if kind == 'sig' and np.ndim(sg) == 3:
+                    if not np.array_equal(sg, np.repeat(sg[..., :1], sg.shape[-1], axis=-1)):
+                        ctx.violation('ktables-not-degenerate', 'degenerate k-tables were prepared into coefficients that '
+                                      'differ between quadrature points', replay=dict(spec=spec))
+                        ok3 = False
+                    o['cs'][j] = (kind, sg[..., 0], nm)
+            if not ok3:
+                continue
+            oracle(ctx, o, spec)
+            obs.append(o)
+            specs.append(spec)
+            exprs.append(model_expr(o))
+            ctx.count('opacity mode: k-tables')
+            ctx.count('level:' + spec['level'])
+    finally:
+        shutil.rmtree(kdir, ignore_errors=True)
+        tmodel.reset_caches()
     results = C.run_cases('C01', HEADER, exprs, shard=5)
     for o, spec, res in zip(obs, specs, results):
         bad = compare(o, res)
         t = o['trans']
         nontriv = bool(np.any((t > 1e-6) & (t < 1 - 1e-6)))
-        ctx.case(repr((spec['nlayers'], spec['contribs'], spec['level'], float(o['depth'][0]))),
+        ctx.case(repr((spec['nlayers'], spec['contribs'], spec['level'], spec.get('opacity_mode', 'xsec'), float(o['depth'][0]))),
                  nontrivial=nontriv,
                  sample=dict(nlayers=spec['nlayers'], contribs=spec['contribs'], level=spec['level'],
                              new_path=o['newm'], depth=o['depth'][:2]))
@@ -252,7 +298,19 @@ def replay(ctx, obj):
         for k in ('Tg', 'Pg', 'tab', 'wn'):
             spec['opac'][g][k] = np.array(spec['opac'][g][k])
     spec['cia']['xsec'] = np.array(spec['cia']['xsec'])
-    o = observe(tmodel.build(spec))
+    if spec.get('opacity_mode') == 'ktables':
+        import os
+        import shutil
+        kdir = os.path.join(C.CACHE, 'ktables_c01_%d' % os.getpid())
+        try:
+            tmodel.write_ktables(spec, kdir, np.array(spec['kweights'], float))
+            o = observe(tmodel.build(spec, kdir=kdir))
+        finally:
+            shutil.rmtree(kdir, ignore_errors=True)
+            tmodel.reset_caches()
+        o['cs'] = [(k_, sg[..., 0] if (k_ == 'sig' and np.ndim(sg) == 3) else sg, nm) for k_, sg, nm in o['cs']]
+    else:
+        o = observe(tmodel.build(spec))
     oracle(ctx, o, spec)
     res = C.run_cases('C01_replay', HEADER, [model_expr(o)])
     bad = compare(o, res[0])
